@@ -15,7 +15,8 @@ ASSUMPTIONS = [
 
 ORACLE = {"tj_scc", "ko_scc", "tjs_scc", "ss_scc", "sp_scc", "tj_dense", "ko_dense", "tjs_dense", "ss_dense", "sp_dense",
           "x_tjko", "x_tjsss", "cli_scc", "cli_sizes", "sb_sorted", "sb_part", "sb_scc", "psb_sorted", "psb_part", "psb_scc", "big"}
-CORR = {"parse", "cli_prep", "cli_eq", "tj_eq", "ko_eq", "tjs_eq", "ss_eq", "sp_eq", "sp_model", "fin", "csz", "sb_eq", "psb_eq"}
+CORR = {"parse", "cli_prep", "cli_eq", "tj_eq", "ko_eq", "tjs_eq", "ss_eq", "sp_eq", "sp_model", "fin", "csz", "sb_eq", "psb_eq",
+        "bigagree"}
 
 
 def nontrivial(case):
@@ -88,7 +89,8 @@ def run(ctx):
         ("rand", ["--mode", "rand", "--count", "400" if quick else "6000", "--maxn", "60" if quick else "100"], 2),
         ("big", ["--mode", "big", "--count", "6" if quick else "24", "--maxn", "150"], 3),
         ("cli", ["--mode", "cli", "--count", "60" if quick else "600", "--maxn", "40"], 4),
-        ("huge", ["--mode", "huge", "--count", "3" if quick else "12"], 5),
+        # sizes 250 003, 400 001, 1 000 003 (--maxn caps them; never below 200 001), sequential and parallel
+        ("huge", ["--mode", "huge", "--count", "3" if quick else "12", "--maxn", "1000003"], 5),
     ]
     rs = [run_scc(ctx, name, hargs, so) for name, hargs, so in runs]
     r = codec.merge(rs)
@@ -97,7 +99,11 @@ def run(ctx):
                  "paths closing on the root, trees with back arcs; half of them relabelled by a random permutation); each with "
                  "tarjan, kosaraju (+ hand-built transpose), tarjan/symm_seq/symm_par on the symmetrisation (thread pools "
                  "1..16), sort_by_size on Tarjan's result and par_sort_by_size on Kosaraju's; plus the command-line entry point "
-                 "webgraph-sccs (compressed graph, with/without --renumber, -j 1/2/4) on small fixed and random graphs; plus (par_)sort_by_size on component arrays of 250 003 .. 1 000 003 nodes (above the minimum task length of the parallel loops) judged by linear scans in the harness (unproved probe, aspect big); non-trivial = at least 2 nodes "
+                 "webgraph-sccs (compressed graph, with/without --renumber, -j 1/2/4) on small fixed and random graphs; plus (par_)sort_by_size on component arrays of 250 003 .. 1 000 003 nodes (above the minimum task length of the "
+                 "parallel loops): old and new arrays and returned sizes are judged in the driver by the extracted n log n "
+                 "checker big_check_sort_by_size, proved to decide the array-level conclusions of S_sort_by_size "
+                 "(C15_big_sort_by_size_spec; aspect big), and cross-checked against the verdict of linear scans in the "
+                 "harness (aspect bigagree); non-trivial = at least 2 nodes "
                  "and one arc; distinct = different (graph, pool sizes)")
     violations, known = codec.verdict("C15", r)
     r.update({"violations": violations, "known": known})
